@@ -2,6 +2,7 @@ package checks
 
 import (
 	"bytes"
+	"errors"
 	"context"
 	"fmt"
 	"os"
@@ -605,6 +606,11 @@ func runC07Proc(c *fw.Case) {
 		res, err := runGated(g, sig, args(g)...)
 		why := complete(g)
 		g.close()
+		if errors.Is(err, errProcTimeout) {
+			c.Probe("procsim-timeout-case-dropped")
+			c.Outcome("dropped")
+			return
+		}
 		if err != nil {
 			c.HarnessError("signal at request %d: %v", k, err)
 			return
